@@ -70,7 +70,7 @@ PROPS = {
     },
     "C08": {
         "suites": [("gw", "counts"), ("gw", "mixed")],
-        "theorems_carry": "unsubscribe succeeds iff 0 < count <= direct, invalidParams iff bad or non-positive count; limit 256 (regenerated constant) refuses without changing the count",
+        "theorems_carry": "unsubscribe succeeds iff 0 < count <= direct, invalidParams iff bad or non-positive count; limit 256 (regenerated constant) refuses without changing the count; the bookkeeping (addDirect / unsubVerdict / reset by an unsubscribe event) refines a plain counter step by step, stays within 0..limit for every operation sequence, and a refused request leaves it unchanged",
         "correspondence_only": "refinement of direct to the number of successful responses: lockstep (direct/indirect/indirectsent in every snapshot) + count monitor. Known finding D2.",
         "assumptions": [],
     },
